@@ -1,13 +1,15 @@
 (* Mgr — C05: facts about the dial bookkeeping of the manager model. *)
 From Coq Require Import List Arith NArith Bool Lia.
 From Coq Require Import ZifyBool ZifyNat ZifyN.
-From V.Mgr Require Import Model Caps.
+From V.C10 Require Model.
+From V.Mgr Require Import DialShape DialShapeProofs Model Caps.
 Import ListNotations.
 Open Scope N_scope.
 
 Arguments N.add : simpl never.
 Arguments N.eqb : simpl never.
 Arguments N.leb : simpl never.
+Arguments N.ltb : simpl never.
 Arguments N.of_nat : simpl never.
 
 Lemma so_pending m x q : state_of (set_pending m x) q = state_of m q. Proof. reflexivity. Qed.
@@ -15,12 +17,13 @@ Lemma so_known m x q : state_of (set_known m x) q = state_of m q. Proof. reflexi
 Lemma so_bump m q : state_of (bump_conn m) q = state_of m q. Proof. reflexivity. Qed.
 Lemma so_limits m a b q : state_of (set_limits m a b) q = state_of m q. Proof. reflexivity. Qed.
 Lemma so_accepting m a q : state_of (set_accepting m a) q = state_of m q. Proof. reflexivity. Qed.
+Lemma so_oerrs m a q : state_of (set_oerrs m a) q = state_of m q. Proof. reflexivity. Qed.
 
 (* the dial record (an outbound attempt the peer state is waiting for), if any *)
 Definition dial_record (s : pstate) : option conn :=
   match s with
   | Connected _ (Some (SecDial d)) => Some d
-  | Opening d | Dialing d | Disconnected (Some d) => Some d
+  | Opening d _ | Dialing d | Disconnected (Some d) => Some d
   | _ => None
   end.
 
@@ -30,49 +33,295 @@ Definition settled (s : pstate) : Prop := dial_record s = None.
 
 Lemma settled_can_dial s : settled s -> can_dial s = GateOk \/ can_dial s = GateConnected.
 Proof.
-  destruct s as [r [[e|e]|]|d|d|[d|]]; cbn [settled dial_record can_dial]; try discriminate; auto.
+  destruct s as [r [[e|e]|]|d ts|d|[d|]]; cbn [settled dial_record can_dial]; try discriminate; auto.
+Qed.
+
+(* ---------- the address book only holds addresses of installed transports ---------- *)
+
+(* every path that stores an address checks that its transport is installed
+   (add_known_address: supported_transport; dial_address: the shape check and the installed check)
+   or stores an address reported by an installed transport *)
+Definition KInv (L : limits) (m : mgr) : Prop :=
+  forall p a, In a (addrs_of m p) -> installed L (kind_of a) = true.
+
+Lemma addrs_of_set_known_other m k q : addrs_of (set_known m k) q = match lookup q k with Some l => l | None => [] end.
+Proof. reflexivity. Qed.
+
+Lemma in_add_addr m p a q x :
+  In x (addrs_of (add_addr m p a) q) -> In x (addrs_of m q) \/ (q = p /\ x = a).
+Proof.
+  unfold add_addr. destruct (existsb _ _); [now left|].
+  unfold addrs_of at 1. cbn [set_known known]. rewrite lookup_insert_key.
+  destruct (q =? p) eqn:E.
+  - assert (q = p) by lia. subst q. rewrite in_app_iff. cbn [In]. intros [H|[H|[]]]; [now left | right; auto].
+  - intros H. left. exact H.
+Qed.
+
+Lemma add_addr_in m p a : In a (addrs_of (add_addr m p a) p) \/
+                          existsb (V.C10.Model.maddr_eqb a) (addrs_of m p) = true.
+Proof.
+  unfold add_addr. destruct (existsb _ _) eqn:E; [now right|]. left.
+  unfold addrs_of at 1. cbn [set_known known]. rewrite lookup_insert_key.
+  assert (p =? p = true) as -> by lia. rewrite in_app_iff. right. now left.
+Qed.
+
+Lemma add_addr_mono m p a q x : In x (addrs_of m q) -> In x (addrs_of (add_addr m p a) q).
+Proof.
+  unfold add_addr. destruct (existsb _ _); [auto|].
+  unfold addrs_of at 2. cbn [set_known known]. rewrite lookup_insert_key.
+  destruct (q =? p) eqn:E; [|auto]. assert (q = p) by lia. subst q. intros H. rewrite in_app_iff. now left.
+Qed.
+
+Lemma kinv_add_addr L m p a : KInv L m -> installed L (kind_of a) = true -> KInv L (add_addr m p a).
+Proof.
+  intros K Ha q x Hx. apply in_add_addr in Hx. destruct Hx as [Hx|[_ ->]]; [exact (K _ _ Hx) | exact Ha].
+Qed.
+
+Lemma kinv_frame L m m' : known m' = known m -> KInv L m -> KInv L m'.
+Proof. intros H K p a. unfold addrs_of. rewrite H. apply K. Qed.
+
+Lemma kind_of_canon p t : kind_of (canon p t) = if t =? TCP then TCP else WS.
+Proof. unfold canon. destruct (t =? TCP); reflexivity. Qed.
+
+Lemma installed_lt L t : installed L t = true -> t = TCP \/ t = WS.
+Proof. unfold installed, TCP, WS. intros H. apply andb_prop in H. destruct H as [H _]. lia. Qed.
+
+Lemma installed_kind_canon L p t : installed L t = true -> installed L (kind_of (canon p t)) = true.
+Proof.
+  intros H. rewrite kind_of_canon. destruct (installed_lt _ _ H) as [-> | ->]; exact H.
+Qed.
+
+(* the canonical addresses are well-formed dial addresses of their transport *)
+Lemma dial_shape_canon p t :
+  dial_shape LISTEN (canon p t) = if t =? TCP then SvTcp p else SvWs p.
+Proof.
+  unfold canon, dial_shape, LISTEN, LISTEN0. destruct (t =? TCP); cbn [last app existsb V.C10.Model.maddr_eqb V.C10.Model.comp_eqb V.C10.Model.ipclass_eqb andb orb].
+  - assert (100 + p =? 1 = false) as -> by lia. cbn [andb orb is_host]. reflexivity.
+  - assert (100 + p =? 1 = false) as -> by lia. cbn [andb orb is_host]. reflexivity.
+Qed.
+
+Lemma kind_of_tcp_shape a q : dial_shape LISTEN a = SvTcp q -> kind_of a = TCP.
+Proof.
+  intros H. destruct (DialShapeProofs.dial_shape_tcp_sound _ _ _ H) as (h & port & ho & -> & Hh & _).
+  unfold kind_of. cbn [existsb is_wsc orb]. destruct h; cbn [is_host] in Hh; try discriminate; reflexivity.
+Qed.
+
+Lemma kind_of_ws_shape a q : dial_shape LISTEN a = SvWs q -> kind_of a = WS.
+Proof.
+  intros H. destruct (DialShapeProofs.dial_shape_ws_sound _ _ _ H) as (h & port & w & ho & -> & Hh & Hw & _).
+  unfold kind_of. cbn [existsb]. destruct Hw as [-> | ->]; cbn [is_wsc orb];
+    destruct h; cbn [is_host] in Hh; try discriminate; reflexivity.
+Qed.
+
+Lemma kinv_dial_addr L m p t a f :
+  KInv L m -> kind_of a = t -> KInv L (fst (do_dial_addr L m p t a f)).
+Proof.
+  intros K Hk. unfold do_dial_addr. destruct (installed L t) eqn:Ei; cbn [negb]; [|exact K].
+  assert (K0 : KInv L (add_addr (bump_conn m) p a)).
+  { apply kinv_add_addr; [eapply kinv_frame; [|exact K]; reflexivity | now rewrite Hk]. }
+  destruct (can_dial _); try exact K0. destruct f; cbn [fst]; (eapply kinv_frame; [|exact K0]); reflexivity.
+Qed.
+
+Lemma kinv_dial_shape L m a f : KInv L m -> KInv L (fst (do_dial_shape L m a f)).
+Proof.
+  intros K. unfold do_dial_shape. destruct (limit_reached _ _); [exact K|].
+  destruct (dial_shape LISTEN a) as [code|q|q] eqn:Es; [exact K| |].
+  - apply kinv_dial_addr; [exact K | now apply (kind_of_tcp_shape a q)].
+  - apply kinv_dial_addr; [exact K | now apply (kind_of_ws_shape a q)].
+Qed.
+
+Lemma kinv_dial_peer L m p ts fl : KInv L m -> KInv L (fst (do_dial_peer L m p ts fl)).
+Proof.
+  intros K. unfold do_dial_peer. destruct (limit_reached _ _); [exact K|]. destruct (p =? LOCAL); [exact K|].
+  destruct (can_dial _); try exact K. destruct (is_nil _); [exact K|].
+  destruct (open_calls L (next_conn m) ts fl) as [calls ok]. destruct ok; cbn [fst];
+    (eapply kinv_frame; [|exact K]); reflexivity.
+Qed.
+
+Lemma do_closed_known m p c : known (fst (do_closed m p c)) = known m.
+Proof. unfold do_closed. destruct (st_on_closed _ _). reflexivity. Qed.
+
+Lemma kinv_established_checked L m1 p c t lst f :
+  KInv L m1 -> KInv L (fst (do_established_checked L m1 p c t lst f)).
+Proof.
+  intros K. unfold do_established_checked. destruct (limit_reached _ _).
+  { cbn [fst]. destruct (existsb _ _); [eapply kinv_frame; [|exact K]; reflexivity | exact K]. }
+  destruct (st_on_established (state_of m1 p) c) as [s' acc]. destruct acc; cbn [negb]; [|exact K].
+  assert (Hfin : forall m4 cancels, known m4 = known m1 -> KInv L (fst (est_finish m4 p c t lst f cancels))).
+  { intros m4 cancels H4. unfold est_finish. destruct f.
+    - pose proof (do_closed_known m4 p c) as Hk. destruct (do_closed m4 p c) as [m5 r]. cbn [fst] in *.
+      eapply kinv_frame; [|exact K]. congruence.
+    - cbn [fst]. eapply kinv_frame; [|exact K]. exact H4. }
+  destruct (state_of m1 p) as [r sc|d ts|d|d]; cbv beta iota zeta;
+    try (apply Hfin; destruct lst; reflexivity).
+  destruct (negb (forallb (installed L) ts)); [exact K|]. apply Hfin. destruct lst; reflexivity.
+Qed.
+
+(* the address book only holds installed kinds, on every history whatsoever *)
+Theorem kinv_step L m e : KInv L m -> KInv L (fst (step L m e)).
+Proof.
+  intros K.
+  destruct e as [p ts fl|p t f|p t|c t pa|c t f|c t pa|p c t lst f|c t|c ok|p c| |a|p ts fl clog|a clog];
+    cbn [step].
+  - now apply kinv_dial_peer.
+  - now apply kinv_dial_shape.
+  - cbn [fst]. destruct (installed L (kind_of (canon p t))) eqn:E; [|exact K]. now apply kinv_add_addr.
+  - destruct (installed L t) eqn:Ei; [|exact K]. unfold do_dial_failure.
+    assert (K0 : KInv L (add_addr m pa (canon pa t))) by (apply kinv_add_addr; [exact K | now apply installed_kind_canon]).
+    destruct (lookup c _); [|exact K0]. cbn [fst]. eapply kinv_frame; [|exact K0]. reflexivity.
+  - destruct (installed L t) eqn:Ei; [|exact K]. unfold do_opened.
+    destruct (lookup c (pending (set_oerrs m (remove_key c (oerrs m))))) as [p|].
+    2:{ cbn [fst]. eapply kinv_frame; [|exact K]. reflexivity. }
+    set (m1 := add_addr _ p (canon p t)).
+    assert (K1 : KInv L m1).
+    { apply kinv_add_addr; [eapply kinv_frame; [|exact K]; reflexivity | now apply installed_kind_canon]. }
+    destruct (state_of m1 p) as [r sc|d ts|d|d]; try exact K1.
+    destruct (negb (forallb (installed L) ts)); [eapply kinv_frame; [|exact K1]; reflexivity|].
+    destruct f; cbn [fst]; (eapply kinv_frame; [|exact K1]); reflexivity.
+  - destruct (installed L t) eqn:Ei; [|exact K]. unfold do_open_failure.
+    set (m0 := add_addr m pa (canon pa t)).
+    assert (K0 : KInv L m0) by (apply kinv_add_addr; [exact K | now apply installed_kind_canon]).
+    destruct (lookup c (pending m0)) as [p|]; [|exact K0].
+    destruct (state_of m0 p) as [r sc|d ts|d|d]; try exact K0.
+    destruct (mem t ts); [|exact K0].
+    destruct (remove_tr t ts); cbn [fst]; (eapply kinv_frame; [|exact K0]); reflexivity.
+  - destruct (installed L t) eqn:Ei; [|exact K]. unfold do_established.
+    set (me := set_oerrs m (remove_key c (oerrs m))).
+    set (m0 := if lst then me else add_addr me p (canon p t)).
+    assert (K0 : KInv L m0).
+    { subst m0. destruct lst; [eapply kinv_frame; [|exact K]; reflexivity|].
+      apply kinv_add_addr; [eapply kinv_frame; [|exact K]; reflexivity | now apply installed_kind_canon]. }
+    assert (K1 : KInv L (set_pending m0 (remove_key c (pending m0)))) by (eapply kinv_frame; [|exact K0]; reflexivity).
+    destruct (lookup c (pending m0)) as [dp|]; [destruct (dp =? p)|]; try exact K1;
+      now apply kinv_established_checked.
+  - destruct (installed L t); [|exact K]. destruct (limit_reached _ _); exact K.
+  - unfold do_accept_done. destruct (lookup c (accepting m)) as [[p b]|]; [|exact K].
+    destruct ok; cbn [fst]; [eapply kinv_frame; [|exact K]; reflexivity|].
+    pose proof (do_closed_known (set_accepting m (remove_first c (accepting m))) p c) as Hk.
+    destruct (do_closed _ p c) as [m2 r]. cbn [fst] in *. eapply kinv_frame; [|exact K]. exact Hk.
+  - pose proof (do_closed_known m p c) as Hk. destruct (do_closed m p c) as [m1 rep]. cbn [fst] in *.
+    eapply kinv_frame; [|exact K]. exact Hk.
+  - cbn [fst]. eapply kinv_frame; [|exact K]. reflexivity.
+  - now apply kinv_dial_shape.
+  - unfold do_hdial_peer. destruct (handle_gate m p); try exact K. destruct clog; [exact K|].
+    pose proof (kinv_dial_peer L m p ts fl K) as K1. destruct (do_dial_peer L m p ts fl). exact K1.
+  - unfold do_hdial_addr. destruct (negb _); [exact K|]. destruct clog; [exact K|].
+    pose proof (kinv_dial_shape L m a false K) as K1. destruct (do_dial_shape L m a false). exact K1.
+Qed.
+
+Lemma kinv_init L : KInv L init.
+Proof. intros p a H. destruct H. Qed.
+
+Theorem kinv_run L es : forall m, KInv L m -> KInv L (fst (run L m es)).
+Proof.
+  induction es as [|e t IH]; intros m K; cbn [run fst]; [exact K|].
+  pose proof (kinv_step L m e K) as K1. destruct (step L m e) as [m1 o]. cbn [fst] in K1.
+  specialize (IH m1 K1). destruct (run L m1 t) as [m2 os]. exact IH.
+Qed.
+
+(* ---------- what a valid choice of transports is ---------- *)
+Lemma subset_in a b x : subset a b = true -> In x a -> In x b.
+Proof.
+  unfold subset. rewrite forallb_forall. intros H Hx. apply mem_in. now apply H.
+Qed.
+
+Lemma in_kinds_of l t : In t (kinds_of l) -> exists a, In a l /\ kind_of a = t.
+Proof.
+  unfold kinds_of. rewrite in_app_iff. intros [H|H].
+  - destruct (existsb (fun a => kind_of a =? TCP) l) eqn:E; [|destruct H].
+    destruct H as [<-|[]]. apply existsb_exists in E. destruct E as (a & Ha & E). exists a. split; [assumption | lia].
+  - destruct (existsb (fun a => kind_of a =? WS) l) eqn:E; [|destruct H].
+    destruct H as [<-|[]]. apply existsb_exists in E. destruct E as (a & Ha & E). exists a. split; [assumption | lia].
+Qed.
+
+Lemma choice_ok_facts L m p ts :
+  choice_ok L m p ts = true ->
+  ts <> [] /\ (forall t, In t ts -> exists a, In a (addrs_of m p) /\ kind_of a = t).
+Proof.
+  unfold choice_ok. intros H. repeat (apply andb_prop in H; destruct H as [H ?]).
+  split.
+  - destruct ts; [discriminate | discriminate].
+  - intros t Ht. apply in_kinds_of. eapply subset_in; eassumption.
+Qed.
+
+Lemma choice_installed L m p ts :
+  KInv L m -> choice_ok L m p ts = true -> forall t, In t ts -> installed L t = true.
+Proof.
+  intros K H t Ht. destruct (choice_ok_facts _ _ _ _ H) as [_ Hk].
+  destruct (Hk _ Ht) as (a & Ha & <-). exact (K _ _ Ha).
+Qed.
+
+(* with every transport of the set installed and no failing call, open is called on each of them *)
+Lemma open_calls_all L c ts :
+  (forall t, In t ts -> installed L t = true) -> open_calls L c ts [] = (map (CallOpen c) ts, true).
+Proof.
+  induction ts as [|t r IH]; intros H; cbn [open_calls map]; [reflexivity|].
+  rewrite (H t (or_introl eq_refl)). cbn [mem existsb].
+  rewrite IH by (intros x Hx; apply H; now right). reflexivity.
 Qed.
 
 (* a dial of a settled, disconnected peer with a known address, below the limit, is attempted:
-   a fresh connection id is opened on the transport, recorded as pending, and Ok is returned *)
-Lemma redial_attempted L m p :
-  state_of m p = Disconnected None -> mem p (known m) = true -> p <> LOCAL ->
+   a fresh connection id is opened on every transport the chosen addresses span, recorded as
+   pending, and Ok is returned *)
+Lemma redial_attempted L m p ts :
+  state_of m p = Disconnected None -> p <> LOCAL ->
   limit_reached (max_out L) (outs m) = false ->
-  let '(m', os) := do_dial_peer L m p false in
-  os = [CallOpen (next_conn m); Ret RET_OK] /\
-  state_of m' p = Opening (next_conn m) /\
+  KInv L m -> choice_ok L m p ts = true ->
+  let '(m', os) := do_dial_peer L m p ts [] in
+  ts <> [] /\
+  os = map (CallOpen (next_conn m)) ts ++ [Ret RET_OK] /\
+  state_of m' p = Opening (next_conn m) ts /\
   lookup (next_conn m) (pending m') = Some p /\
   next_conn m' = next_conn m + 1.
 Proof.
-  intros Hs Hk Hp Hl. unfold do_dial_peer. rewrite Hl.
-  assert (p =? LOCAL = false) as -> by lia. rewrite Hs. cbn [can_dial]. rewrite Hk. cbn [negb].
-  repeat split.
+  intros Hs Hp Hl K Hc. unfold do_dial_peer. rewrite Hl.
+  assert (p =? LOCAL = false) as -> by lia. rewrite Hs. cbn [can_dial].
+  destruct (choice_ok_facts _ _ _ _ Hc) as [Hne Hk].
+  assert (is_nil (addrs_of m p) = false) as ->.
+  { destruct ts as [|t r]; [congruence|]. destruct (Hk t (or_introl eq_refl)) as (a & Ha & _).
+    destruct (addrs_of m p); [destruct Ha | reflexivity]. }
+  rewrite (open_calls_all L (next_conn m) ts (choice_installed L m p ts K Hc)).
+  repeat split; auto.
   - rewrite so_pending, state_of_set_state. assert (p =? p = true) as -> by lia. reflexivity.
   - cbn [set_pending pending]. rewrite lookup_insert_key.
     assert (next_conn m =? next_conn m = true) as -> by lia. reflexivity.
 Qed.
 
 (* the same through dial_address *)
-Lemma redial_addr_attempted L m p :
-  state_of m p = Disconnected None ->
-  limit_reached (max_out L) (outs m) = false ->
-  let '(m', os) := do_dial_addr L m p false in
-  os = [CallDial (next_conn m); Ret RET_OK] /\
+Lemma redial_addr_attempted L m p t a :
+  state_of m p = Disconnected None -> installed L t = true ->
+  let '(m', os) := do_dial_addr L m p t a false in
+  os = [CallDial (next_conn m) t; Ret RET_OK] /\
   state_of m' p = Dialing (next_conn m) /\
   lookup (next_conn m) (pending m') = Some p.
 Proof.
-  intros Hs Hl. unfold do_dial_addr. rewrite Hl.
-  rewrite so_known, so_bump, Hs. cbn [can_dial].
+  intros Hs Hi. unfold do_dial_addr. rewrite Hi. cbn [negb].
+  rewrite so_add_addr, so_bump, Hs. cbn [can_dial].
   repeat split.
   - rewrite so_pending, state_of_set_state. assert (p =? p = true) as -> by lia. reflexivity.
   - cbn [set_pending pending]. rewrite lookup_insert_key.
     assert (next_conn m =? next_conn m = true) as -> by lia. reflexivity.
 Qed.
 
+(* ... and as the manager's event: dial_address with the canonical address of p for an installed
+   transport, below the limit *)
+Lemma redial_addr_event L m p t :
+  state_of m p = Disconnected None -> installed L t = true ->
+  limit_reached (max_out L) (outs m) = false ->
+  let '(m', os) := step L m (CmdDialAddr p t false) in
+  os = [CallDial (next_conn m) t; Ret RET_OK] /\
+  state_of m' p = Dialing (next_conn m) /\
+  lookup (next_conn m) (pending m') = Some p.
+Proof.
+  intros Hs Hi Hl. cbn [step]. unfold do_dial_shape. rewrite Hl, dial_shape_canon.
+  destruct (installed_lt _ _ Hi) as [-> | ->]; cbn [N.eqb Pos.eqb TCP WS];
+    [apply (redial_addr_attempted L m p TCP) | apply (redial_addr_attempted L m p WS)]; assumption.
+Qed.
+
 (* a dial request for a peer that is connected or already being dialled changes nothing but
    (for dial_address) the id counter and the address book *)
-Lemma dial_peer_refused_unchanged L m p f :
-  can_dial (state_of m p) <> GateOk -> fst (do_dial_peer L m p f) = m.
+Lemma dial_peer_refused_unchanged L m p ts fl :
+  can_dial (state_of m p) <> GateOk -> fst (do_dial_peer L m p ts fl) = m.
 Proof.
   intros H. unfold do_dial_peer.
   destruct (limit_reached (max_out L) (outs m)); [reflexivity|].
@@ -81,109 +330,240 @@ Proof.
 Qed.
 
 (* a failure report for attempt c removes c from the pending attempts: it cannot be reported twice *)
-Lemma dial_failure_consumes m c pa :
-  In (EvDialFailure c pa) (snd (do_dial_failure m c pa)) ->
-  lookup c (pending (fst (do_dial_failure m c pa))) = None /\
+Lemma dial_failure_consumes m c t pa :
+  In (EvDialFailure c pa) (snd (do_dial_failure m c t pa)) ->
+  lookup c (pending (fst (do_dial_failure m c t pa))) = None /\
   lookup c (pending m) <> None.
 Proof.
-  unfold do_dial_failure. cbn [set_known pending].
+  unfold do_dial_failure. rewrite add_addr_pending.
   destruct (lookup c (pending m)) as [p|] eqn:El; cbn [fst snd In]; [|tauto].
   intros _. split; [|discriminate]. cbn [set_state set_pending pending].
   rewrite lookup_remove_key. assert (c =? c = true) as -> by lia. reflexivity.
 Qed.
 
-Lemma open_failure_consumes m c pa :
-  In (EvOpenFailure c) (snd (do_open_failure m c pa)) ->
-  lookup c (pending (fst (do_open_failure m c pa))) = None /\
+Lemma open_failure_consumes m c t pa n :
+  In (EvOpenFailure c n) (snd (do_open_failure m c t pa)) ->
+  lookup c (pending (fst (do_open_failure m c t pa))) = None /\
   lookup c (pending m) <> None.
 Proof.
-  unfold do_open_failure. cbn [set_known pending].
+  unfold do_open_failure. rewrite add_addr_pending.
   destruct (lookup c (pending m)) as [p|] eqn:El; cbn [fst snd In]; [|tauto].
-  destruct (state_of (set_known m pa) p); cbn [fst snd In]; try (intros [H|H]; [discriminate|tauto]); try tauto.
-  intros _. split; [|discriminate]. cbn [set_state set_pending pending].
+  destruct (state_of (add_addr m pa (canon pa t)) p) as [r sc|d ts|d|d]; cbn [fst snd In]; try tauto.
+  destruct (mem t ts); cbn [fst snd In]; [|tauto].
+  destruct (remove_tr t ts); cbn [fst snd In]; [|tauto].
+  intros _. split; [|discriminate]. cbn [set_state set_pending set_oerrs pending].
   rewrite lookup_remove_key. assert (c =? c = true) as -> by lia. reflexivity.
 Qed.
 
 (* a failed dial clears exactly the matching dial record and reports once *)
-Lemma dial_failure_clears m c p :
+Lemma dial_failure_clears m c t p :
   lookup c (pending m) = Some p -> dial_record (state_of m p) = Some c ->
-  state_of m p <> Opening c ->
-  let '(m', os) := do_dial_failure m c p in
+  (forall ts, state_of m p <> Opening c ts) ->
+  let '(m', os) := do_dial_failure m c t p in
   os = [ProtoDialFailure p; EvDialFailure c p] /\ settled (state_of m' p).
 Proof.
-  intros Hl Hd Hno. unfold do_dial_failure. cbn [set_known pending]. rewrite Hl.
+  intros Hl Hd Hno. unfold do_dial_failure. rewrite add_addr_pending, Hl.
   split; [reflexivity|]. rewrite state_of_set_state. assert (p =? p = true) as -> by lia.
-  rewrite so_pending, so_known.
-  destruct (state_of m p) as [r [[e|e]|]|d|d|[d|]]; cbn [dial_record] in Hd; try discriminate;
+  rewrite so_pending, so_add_addr.
+  destruct (state_of m p) as [r [[e|e]|]|d ts|d|[d|]]; cbn [dial_record] in Hd; try discriminate;
     injection Hd as ->; cbn [st_on_dial_failure]; try (assert (c =? c = true) as -> by lia);
-    cbn [settled dial_record]; try reflexivity. congruence.
+    cbn [settled dial_record]; try reflexivity. exfalso. eapply Hno. reflexivity.
 Qed.
 
 (* after the repair of F-C05a: an outbound connection rejected by the limit leaves no dial record *)
-Lemma limit_reject_settles L m1 p c f :
+Lemma limit_reject_settles L m1 p c t f :
   limit_reached (max_out L) (outs m1) = true ->
-  dial_record (state_of m1 p) = Some c -> state_of m1 p <> Opening c ->
+  dial_record (state_of m1 p) = Some c -> (forall ts, state_of m1 p <> Opening c ts) ->
   existsb (fun kp : N * pstate => fst kp =? p) (peers m1) = true ->
-  settled (state_of (fst (do_established_checked L m1 p c false f)) p) /\
-  snd (do_established_checked L m1 p c false f) = [CallReject c].
+  settled (state_of (fst (do_established_checked L m1 p c t false f)) p) /\
+  snd (do_established_checked L m1 p c t false f) = [CallReject c t].
 Proof.
   intros Hl Hd Hno Hex. unfold do_established_checked. rewrite Hl, Hex. cbn [fst snd].
   split; [|reflexivity]. rewrite state_of_set_state. assert (p =? p = true) as -> by lia.
-  destruct (state_of m1 p) as [r [[e|e]|]|d|d|[d|]]; cbn [dial_record] in Hd; try discriminate;
+  destruct (state_of m1 p) as [r [[e|e]|]|d ts|d|[d|]]; cbn [dial_record] in Hd; try discriminate;
     injection Hd as ->; cbn [st_on_dial_failure]; try (assert (c =? c = true) as -> by lia);
-    cbn [settled dial_record]; try reflexivity. congruence.
+    cbn [settled dial_record]; try reflexivity. exfalso. eapply Hno. reflexivity.
 Qed.
 
-(* no handler reaches a debug assertion when connection ids are consistent: Stuck is only
-   produced by an opened connection nobody dialled or an established connection whose pending
-   entry names another peer *)
+(* ---------- the rare outputs: panics and OpenFailure reports ---------- *)
+
+(* every output except a panic site and an OpenFailure report *)
+Definition plain (o : out) : Prop := match o with Stuck _ | EvOpenFailure _ _ => False | _ => True end.
+
+Lemma plain_in o os : Forall plain os -> In o os -> plain o.
+Proof. intros H Hin. rewrite Forall_forall in H. now apply H. Qed.
+
+Lemma plain_demote os : Forall plain os -> Forall plain (map demote os).
+Proof.
+  intros H. induction H as [|o r Ho Hr IH]; cbn [map]; constructor; [|exact IH].
+  destruct o; cbn [demote plain] in *; tauto.
+Qed.
+
+Lemma plain_cancels d ts : Forall plain (map (CallCancel d) ts).
+Proof. induction ts as [|t r IH]; cbn [map]; constructor; [exact Logic.I | exact IH]. Qed.
+
+Lemma open_calls_plain L c ts fl : Forall plain (fst (open_calls L c ts fl)).
+Proof.
+  induction ts as [|t r IH]; cbn [open_calls fst]; [constructor|].
+  destruct (installed L t); [|exact IH]. destruct (mem t fl); cbn [fst]; [repeat constructor|].
+  destruct (open_calls L c r fl) as [os ok]. cbn [fst] in *. constructor; [exact Logic.I | exact IH].
+Qed.
+
+Ltac plain_list := repeat first [apply Forall_nil | apply Forall_cons; [exact Logic.I|]].
+
+Lemma dial_peer_plain L m p ts fl : Forall plain (snd (do_dial_peer L m p ts fl)).
+Proof.
+  unfold do_dial_peer. destruct (limit_reached _ _); [plain_list|].
+  destruct (p =? LOCAL); [plain_list|].
+  destruct (can_dial _); try plain_list.
+  destruct (is_nil _); [plain_list|].
+  pose proof (open_calls_plain L (next_conn m) ts fl) as H.
+  destruct (open_calls L (next_conn m) ts fl) as [calls ok]. cbn [fst] in H.
+  destruct ok; cbn [snd]; apply Forall_app; split; try exact H; plain_list.
+Qed.
+
+Lemma dial_addr_plain L m p t a f : Forall plain (snd (do_dial_addr L m p t a f)).
+Proof.
+  unfold do_dial_addr. destruct (negb _); [plain_list|].
+  destruct (can_dial _); try plain_list. destruct f; plain_list.
+Qed.
+
+Lemma dial_shape_plain L m a f : Forall plain (snd (do_dial_shape L m a f)).
+Proof.
+  unfold do_dial_shape. destruct (limit_reached _ _); [plain_list|].
+  destruct (dial_shape LISTEN a); [plain_list | apply dial_addr_plain | apply dial_addr_plain].
+Qed.
+
+Lemma est_finish_plain m4 p c t lst f cancels :
+  Forall plain cancels -> Forall plain (snd (est_finish m4 p c t lst f cancels)).
+Proof.
+  intros Hc. unfold est_finish. destruct f.
+  - destruct (do_closed m4 p c). cbn [snd]. apply Forall_app. split; [exact Hc | plain_list].
+  - cbn [snd]. apply Forall_app. split; [exact Hc | plain_list].
+Qed.
+
+Lemma forallb_installed_false L ts :
+  forallb (installed L) ts = false -> exists x, In x ts /\ installed L x = false.
+Proof.
+  induction ts as [|x r IH]; [discriminate|]. cbn [forallb].
+  destruct (installed L x) eqn:E.
+  - cbn [andb]. intros Ef. destruct (IH Ef) as (y & Hy & Hi). exists y. split; [now right | assumption].
+  - intros _. exists x. split; [now left | assumption].
+Qed.
+
+(* where a panic site or an OpenFailure report can come from *)
+Lemma special_outputs L m e o :
+  In o (snd (step L m e)) -> ~ plain o ->
+  (exists c t f, e = TrOpened c t f /\ lookup c (pending m) = None /\ o = Stuck 2) \/
+  (exists p c t l f q, e = TrEstablished p c t l f /\ lookup c (pending m) = Some q /\ q <> p /\ o = Stuck 1) \/
+  (exists p c ts t s, state_of m p = Opening c ts /\ In t ts /\ installed L t = false /\ o = Stuck s) \/
+  (exists c t pa p d ts, e = TrOpenFailure c t pa /\ installed L t = true /\ lookup c (pending m) = Some p /\
+      state_of m p = Opening d ts /\ In t ts /\ remove_tr t ts = [] /\ o = EvOpenFailure c (errs_of m c + 1)).
+Proof.
+  assert (Hpl : forall os, Forall plain os -> In o os -> ~ plain o -> False).
+  { intros os H Hin Hn. apply Hn. exact (plain_in _ _ H Hin). }
+  destruct e as [p ts fl|p t f|p t|c t pa|c t f|c t pa|p c t lst f|c t|c ok|p c| |a|p ts fl clog|a clog];
+    cbn [step]; intros Hin Hn.
+  - exfalso. exact (Hpl _ (dial_peer_plain _ _ _ _ _) Hin Hn).
+  - exfalso. exact (Hpl _ (dial_shape_plain _ _ _ _) Hin Hn).
+  - destruct Hin.
+  - exfalso. destruct (installed L t); [|destruct Hin]. unfold do_dial_failure in Hin.
+    destruct (lookup c _); cbn [snd] in Hin; eapply Hpl; try exact Hin; try exact Hn; plain_list.
+  - destruct (installed L t); [|destruct Hin]. unfold do_opened in Hin.
+    cbn [set_oerrs pending] in Hin. destruct (lookup c (pending m)) as [p|] eqn:El.
+    + rewrite so_add_addr, so_pending, so_oerrs in Hin.
+      destruct (state_of m p) as [r sc|d ts|d|d] eqn:Es; try (destruct Hin).
+      destruct (forallb (installed L) ts) eqn:Ef; cbn [negb] in Hin.
+      * exfalso. destruct f; cbn [snd] in Hin; eapply Hpl; try exact Hin; try exact Hn;
+          (apply Forall_app; split; [apply plain_cancels | plain_list]).
+      * cbn [snd In] in Hin. destruct Hin as [<-|[]]. right. right. left.
+        destruct (forallb_installed_false _ _ Ef) as (x & Hx & Hi). exists p, d, ts, x, 3. auto.
+    + cbn [snd In] in Hin. destruct Hin as [<-|[]]. left. exists c, t, f. auto.
+  - destruct (installed L t) eqn:Ei; [|destruct Hin]. unfold do_open_failure in Hin.
+    rewrite add_addr_pending in Hin.
+    destruct (lookup c (pending m)) as [p|] eqn:El; [|destruct Hin].
+    rewrite so_add_addr in Hin.
+    destruct (state_of m p) as [r sc|d ts|d|d] eqn:Es; try (destruct Hin).
+    destruct (mem t ts) eqn:Em; [|destruct Hin].
+    destruct (remove_tr t ts) eqn:Er; [|destruct Hin].
+    cbn [snd In] in Hin. destruct Hin as [<-|[<-|[]]]; [exfalso; apply Hn; exact Logic.I|].
+    right. right. right. exists c, t, pa, p, d, ts. repeat split; auto.
+    + now apply mem_in.
+    + unfold errs_of. now rewrite add_addr_oerrs.
+  - destruct (installed L t); [|destruct Hin]. unfold do_established in Hin.
+    set (me := set_oerrs m (remove_key c (oerrs m))) in *.
+    set (m0 := if lst then me else add_addr me p (canon p t)) in *.
+    assert (Hp : pending m0 = pending m) by (subst m0 me; destruct lst; [reflexivity | now rewrite add_addr_pending]).
+    assert (Hst : forall pd q, state_of (set_pending m0 pd) q = state_of m q).
+    { intros pd q. rewrite so_pending. subst m0 me. destruct lst; [reflexivity | now rewrite so_add_addr]. }
+    assert (Hchk : forall pd, In o (snd (do_established_checked L (set_pending m0 pd) p c t lst f)) ->
+              exists d ts x, state_of m p = Opening d ts /\ In x ts /\ installed L x = false /\ o = Stuck 4).
+    { intros pd. unfold do_established_checked.
+      destruct (limit_reached _ _); [intros H; exfalso; eapply Hpl; try exact H; try exact Hn; plain_list|].
+      rewrite Hst.
+      destruct (st_on_established (state_of m p) c) as [s' acc]. destruct acc; cbn [negb].
+      2:{ intros H; exfalso; eapply Hpl; try exact H; try exact Hn; plain_list. }
+      destruct (state_of m p) as [r sc|d ts|d|d] eqn:Es; cbv beta iota zeta;
+        try (intros H; exfalso; eapply Hpl; try exact H; try exact Hn; apply est_finish_plain; constructor).
+      destruct (forallb (installed L) ts) eqn:Ef; cbn [negb].
+      - intros H. exfalso. eapply Hpl; try exact H; try exact Hn. apply est_finish_plain, plain_cancels.
+      - cbn [snd In]. intros [<-|[]].
+        destruct (forallb_installed_false _ _ Ef) as (x & Hx & Hi). exists d, ts, x. auto. }
+    rewrite Hp in Hin. destruct (lookup c (pending m)) as [dp|] eqn:El.
+    + destruct (dp =? p) eqn:E.
+      * right. right. left. destruct (Hchk _ Hin) as (d & ts & x & H1 & H2 & H3 & H4). exists p, d, ts, x, 4. auto.
+      * cbn [snd In] in Hin. destruct Hin as [<-|[]]. right. left. exists p, c, t, lst, f, dp.
+        repeat split; auto. lia.
+    + right. right. left. destruct (Hchk _ Hin) as (d & ts & x & H1 & H2 & H3 & H4). exists p, d, ts, x, 4. auto.
+  - exfalso. destruct (installed L t); [|destruct Hin].
+    destruct (limit_reached _ _); cbn [snd] in Hin; eapply Hpl; try exact Hin; try exact Hn; plain_list.
+  - exfalso. unfold do_accept_done in Hin. destruct (lookup c _) as [[q b]|]; [|destruct Hin].
+    destruct ok; cbn [snd] in Hin; [eapply Hpl; try exact Hin; try exact Hn; plain_list|].
+    destruct (do_closed _ q c). destruct Hin.
+  - exfalso. destruct (do_closed m p c) as [m1 rep]. destruct rep; cbn [snd] in Hin; [|destruct Hin].
+    eapply Hpl; try exact Hin; try exact Hn; plain_list.
+  - exfalso. cbn [snd] in Hin. eapply Hpl; try exact Hin; try exact Hn; plain_list.
+  - exfalso. exact (Hpl _ (dial_shape_plain _ _ _ _) Hin Hn).
+  - exfalso. unfold do_hdial_peer in Hin. destruct (handle_gate m p);
+      try solve [cbn [snd] in Hin; eapply Hpl; try exact Hin; try exact Hn; plain_list].
+    destruct clog; [cbn [snd] in Hin; eapply Hpl; try exact Hin; try exact Hn; plain_list|].
+    pose proof (dial_peer_plain L m p ts fl) as H. destruct (do_dial_peer L m p ts fl) as [m1 os].
+    cbn [snd] in *. eapply Hpl; try exact Hin; try exact Hn. constructor; [exact Logic.I | now apply plain_demote].
+  - exfalso. unfold do_hdial_addr in Hin. destruct (negb _);
+      [cbn [snd] in Hin; eapply Hpl; try exact Hin; try exact Hn; plain_list|].
+    destruct clog; [cbn [snd] in Hin; eapply Hpl; try exact Hin; try exact Hn; plain_list|].
+    pose proof (dial_shape_plain L m a false) as H. destruct (do_dial_shape L m a false) as [m1 os].
+    cbn [snd] in *. eapply Hpl; try exact Hin; try exact Hn. constructor; [exact Logic.I | now apply plain_demote].
+Qed.
+
+(* no handler reaches a debug assertion / expect when connection ids are consistent and the
+   transports a peer is being opened on exist: Stuck is only produced by an opened connection
+   nobody dialled, an established connection whose pending entry names another peer, or a
+   cancel on a transport that is not installed *)
 Lemma stuck_only_on_inconsistent_ids L m e s :
   In (Stuck s) (snd (step L m e)) ->
-  (exists c f, e = TrOpened c f /\ lookup c (pending m) = None) \/
-  (exists p c l f q, e = TrEstablished p c l f /\ lookup c (pending m) = Some q /\ q <> p).
+  (exists c t f, e = TrOpened c t f /\ lookup c (pending m) = None) \/
+  (exists p c t l f q, e = TrEstablished p c t l f /\ lookup c (pending m) = Some q /\ q <> p) \/
+  (exists p c ts t, state_of m p = Opening c ts /\ In t ts /\ installed L t = false).
 Proof.
-  destruct e as [p f|p f|p|c pa|c f|c pa|p c lst f|c|c ok|p c| |a]; cbn [step].
-  - unfold do_dial_peer. repeat match goal with |- context [if ?b then _ else _] => destruct b end;
-      try (destruct (can_dial (state_of m p))); cbn [snd In];
-      repeat match goal with |- context [if ?b then _ else _] => destruct b end; cbn [snd In];
-      intuition discriminate.
-  - unfold do_dial_addr. repeat match goal with |- context [if ?b then _ else _] => destruct b end;
-      try (destruct (can_dial (state_of _ p))); cbn [snd In];
-      repeat match goal with |- context [if ?b then _ else _] => destruct b end; cbn [snd In];
-      intuition discriminate.
-  - cbn [snd In]. tauto.
-  - unfold do_dial_failure. destruct (lookup c _); cbn [snd In]; intuition discriminate.
-  - unfold do_opened. destruct (lookup c (pending m)) eqn:El.
-    + destruct (state_of _ p); try destruct f; cbn [snd In]; intuition discriminate.
-    + intros _. left. eauto.
-  - unfold do_open_failure. destruct (lookup c _); [destruct (state_of _ p)|]; cbn [snd In]; intuition discriminate.
-  - unfold do_established.
-    assert (Hchk : forall m1, In (Stuck s) (snd (do_established_checked L m1 p c lst f)) -> False).
-    { intros m1. unfold do_established_checked.
-      destruct (limit_reached _ _); [cbn [snd In]; intuition discriminate|].
-      destruct (st_on_established (state_of m1 p) c) as [s' acc]. destruct acc; cbn [negb].
-      2:{ cbn [snd In]. intuition discriminate. }
-      intros Hin.
-      destruct (state_of m1 p) as [r sc|o|o|o]; cbv beta iota zeta in Hin; destruct f;
-        try match type of Hin with context [do_closed ?a ?b ?c0] => destruct (do_closed a b c0) end;
-        cbn [snd app In] in Hin; intuition discriminate. }
-    assert (Hp : pending (if lst then m else set_known m p) = pending m) by (destruct lst; reflexivity).
-    rewrite Hp. destruct (lookup c (pending m)) as [dp|] eqn:El.
-    + destruct (dp =? p) eqn:E.
-      * intros H. exfalso. eapply Hchk. exact H.
-      * intros _. right. exists p, c, lst, f, dp. split; [reflexivity|]. split; [exact El | lia].
-    + intros H. exfalso. eapply Hchk. exact H.
-  - destruct (limit_reached _ _); cbn [snd In]; intuition discriminate.
-  - unfold do_accept_done. destruct (lookup c _) as [[q b]|]; [destruct ok|]; cbn [snd In]; try tauto;
-      try (intuition discriminate).
-    match goal with |- context [do_closed ?a ?b0 ?c0] => destruct (do_closed a b0 c0) end.
-    cbn [snd In]. tauto.
-  - destruct (do_closed m p c) as [m1 rep]. destruct rep; cbn [snd In]; intuition discriminate.
-  - cbn [snd In]. intuition discriminate.
-  - unfold do_dial_shape. destruct (limit_reached _ _); [cbn [snd In]; intuition discriminate|].
-    destruct (DialShape.dial_shape LISTEN a) as [code|p|p].
-    + cbn [snd In]. intuition discriminate.
-    + unfold do_dial_addr. repeat match goal with |- context [if ?b then _ else _] => destruct b end;
-        try (destruct (can_dial (state_of _ p))); cbn [snd In]; intuition discriminate.
-    + cbn [snd In]. intuition discriminate.
+  intros H. destruct (special_outputs L m e (Stuck s) H (fun x => x)) as
+    [(c & t & f & H1 & H2 & _)|[(p & c & t & l & f & q & H1 & H2 & H3 & _)|[(p & c & ts & t & s' & H1 & H2 & H3 & _)|
+     (c & t & pa & p & d & ts & _ & _ & _ & _ & _ & _ & Ho)]]].
+  - left. exists c, t, f. auto.
+  - right. left. exists p, c, t, l, f, q. auto.
+  - right. right. exists p, c, ts, t. auto.
+  - discriminate.
+Qed.
+
+(* an OpenFailure report (and the DialFailure fan-out to the protocols that goes with it) is
+   produced only by the OpenFailure event of the last transport the peer was still waiting for *)
+Lemma open_failure_only_by_last L m e c n :
+  In (EvOpenFailure c n) (snd (step L m e)) ->
+  exists t pa p d ts, e = TrOpenFailure c t pa /\ installed L t = true /\ lookup c (pending m) = Some p /\
+     state_of m p = Opening d ts /\ In t ts /\ remove_tr t ts = [] /\ n = errs_of m c + 1.
+Proof.
+  intros H. destruct (special_outputs L m e (EvOpenFailure c n) H (fun x => x)) as
+    [(c0 & t & f & _ & _ & Ho)|[(p & c0 & t & l & f & q & _ & _ & _ & Ho)|[(p & c0 & ts & t & s' & _ & _ & _ & Ho)|
+     (c0 & t & pa & p & d & ts & H1 & H2 & H3 & H4 & H5 & H6 & Ho)]]]; try discriminate.
+  injection Ho as <- ->. exists t, pa, p, d, ts. auto 10.
 Qed.
